@@ -14,6 +14,8 @@ THEOREMS = [(M, "NQ.C03." + n) for n in [
     "step_deterministic",
     "exc_covers", "roles_fit", "branch_positions", "classes_unique", "macro_probe_fixed",
     "F3_old_code_counterexample", "F3_fixed_witness", "nonvacuous_loop",
+    "macros_tokenwise_partial", "F4_old_code_counterexample", "F4_fixed_witness",
+    "macros_adjacent_counterexample",
 ]]
 TRANSLATORS = ["instr_table", "asm_tables"]
 LEVEL_TEXT = (
@@ -24,7 +26,8 @@ LEVEL_TEXT = (
     "every taken branch lands on the command after its label; halting is preserved), parametric in the "
     "instruction semantics (any `exec` on evaluated operands). Structural theorem: the output is the source "
     "instructions in order, each preceded only by its own `set <scratch> <literal>`s, operands patched. "
-    "Macro substitution of the (fixed) code equals token-wise replacement when no macro value contains `$`. "
+    "Macro substitution: each pass of the (fixed) code replaces exactly the maximal-munch uses `$key`, for every "
+    "body (the statement for whole macro lists is partial, see Props/C03.lean). "
     "Tie: exception table, scratch-register count, branch set and instruction shapes regenerated from the live "
     "modules with kernel-decided side conditions; syntactic differential test of the compiled model against "
     "`assemble_subroutine` (equal instruction lists or same error class) and of the text front end.")
@@ -88,10 +91,10 @@ def run(ctx):
                 "materialised literal; distinct by the program / text itself")
     rng = ctx.rng
     drv = ctx.driver
-    n_std = 12000 if ctx.thorough else 1500
-    n_wild = 12000 if ctx.thorough else 1500
-    n_text = 4000 if ctx.thorough else 500
-    n_run = 6000 if ctx.thorough else 700
+    n_std = 40000 if ctx.thorough else 5000
+    n_wild = 40000 if ctx.thorough else 5000
+    n_text = 16000 if ctx.thorough else 2000
+    n_run = 30000 if ctx.thorough else 3500
 
     # ------------------------------------------------ stream A: syntactic, assemble_subroutine vs model
     progs = [copy.deepcopy(p) for p in CORPUS]
@@ -126,23 +129,34 @@ def run(ctx):
         if not p:
             continue
         macros = H.gen_macros(rng, p)
-        text = H.render_text(p, rng, macros)
+        tseed = rng.randrange(1 << 30)
+        text = H.render_text(p, H.random.Random(tseed), macros)
         res.evaluations += 1
         res.count("text:macros=%d" % len(macros))
         if macros:
             res.nontrivial.add(text)
-        # (1) the text front end delivers the proto program it was rendered from (model-free)
-        got = H.real_parse_proto(text)
-        want = [c if "l" in c else {"m": c["m"], "a": c["a"], "o": c["o"]} for c in p]
-        if got != {"ok": want}:
-            res.failures.append({"what": "parse_text_protosubroutine(render(P)) != P", "kf": None,
-                                 "input": {"text": text, "program": p, "parsed": got}})
-        # (2) and therefore the same subroutine
-        direct, _ = H.real_assemble(p)
-        via_text = H.real_parse_text(text)
-        if direct != via_text:
-            res.failures.append({"what": "parse_text_subroutine(text) differs from assembling the same program",
-                                 "kf": None, "input": {"text": text, "direct": direct, "via_text": via_text}})
+
+        def text_fails(q, macros=macros, tseed=tseed):
+            """the text front end must deliver the program the text was rendered from, and assembling
+            the text must equal assembling that program (model-free)"""
+            txt = H.render_text(q, H.random.Random(tseed), macros)
+            want = [c if "l" in c else {"m": c["m"], "a": c["a"], "o": c["o"]} for c in q]
+            if H.real_parse_proto(txt) != {"ok": want}:
+                return "parse_text_protosubroutine(render(P)) != P"
+            if H.real_assemble(q)[0] != H.real_parse_text(txt):
+                return "parse_text_subroutine(text) differs from assembling the same program"
+            return None
+
+        why = text_fails(p)
+        if why:
+            small = H.shrink(p, lambda q: text_fails(q) is not None)
+            txt = H.render_text(small, H.random.Random(tseed), macros)
+            res.failures.append({"what": text_fails(small) or why, "kf": None,
+                                 "input": {"text": txt, "program": small, "parsed": H.real_parse_proto(txt),
+                                           "assembled_from_text": H.real_parse_text(txt),
+                                           "assembled_directly": H.real_assemble(small)[0]}})
+            if len(res.failures) > 5:
+                break
         # (3) model of the macro pass and of the tokeniser vs the code
         pre, body = H.T._split_preamble_body(text)
         lines_reqs.append({"op": "asm.macros", "lines": body, "macros": [list(kv) for kv in macros]})
